@@ -1,8 +1,11 @@
 import RulioProofs.StateCascade
 
+set_option linter.unusedSimpArgs false
+set_option linter.unusedVariables false
+
 /-! # The specification `closure` is the least set containing the roots and closed under "names … in deleteWith" -/
 
-theorem mem_depsStep {F : Facts} {dead : List String} {k : String} :
+theorem mem_depsStep {F : FactList} {dead : List String} {k : String} :
     k ∈ depsStep F dead ↔ ∃ fact, (k, fact) ∈ F ∧ k ∉ dead ∧ ∃ d, d ∈ dead ∧ depOn fact d = true := by
   simp only [depsStep, List.mem_map, List.mem_filter, Bool.and_eq_true, Bool.not_eq_true',
     List.any_eq_true, List.contains_iff_mem, depOn]
@@ -12,7 +15,7 @@ theorem mem_depsStep {F : Facts} {dead : List String} {k : String} :
   · rintro ⟨fact, hm, hnd, d, hd1, hd2⟩
     exact ⟨(k, fact), ⟨hm, by simpa using hnd, d, hd2, hd1⟩, rfl⟩
 
-theorem closure_go_extends (F : Facts) : ∀ (n : Nat) (dead : List String) k, k ∈ dead → k ∈ closure.go F n dead := by
+theorem closure_go_extends (F : FactList) : ∀ (n : Nat) (dead : List String) k, k ∈ dead → k ∈ closure.go F n dead := by
   intro n
   induction n with
   | zero => intro dead k h; exact h
@@ -24,7 +27,7 @@ theorem closure_go_extends (F : Facts) : ∀ (n : Nat) (dead : List String) k, k
     · exact ih _ k (List.mem_append_left _ h)
 
 /-- leastness -/
-theorem closure_go_least (F : Facts) (X : String → Prop)
+theorem closure_go_least (F : FactList) (X : String → Prop)
     (hstep : ∀ k fact d, (k, fact) ∈ F → X d → depOn fact d = true → X k) :
     ∀ (n : Nat) (dead : List String), (∀ k, k ∈ dead → X k) → ∀ k, k ∈ closure.go F n dead → X k := by
   intro n
@@ -43,7 +46,7 @@ theorem closure_go_least (F : Facts) (X : String → Prop)
         exact hstep j fact d hm (h d hd) hdep
 
 /-- entries whose key is not dead yet -/
-def liveCount (F : Facts) (dead : List String) : Nat := (F.filter (fun e => !dead.contains e.1)).length
+def liveCount (F : FactList) (dead : List String) : Nat := (F.filter (fun e => !dead.contains e.1)).length
 
 theorem filter_length_lt {α} {p q : α → Bool} {l : List α} (hpq : ∀ x, x ∈ l → p x = true → q x = true)
     (hex : ∃ x, x ∈ l ∧ q x = true ∧ p x = false) : (l.filter p).length < (l.filter q).length := by
@@ -84,7 +87,7 @@ theorem filter_length_lt {α} {p q : α → Bool} {l : List α} (hpq : ∀ x, x 
         · exact this
       · simp only [hpq a (by simp) hpa, ↓reduceIte, List.length_cons]; omega
 
-theorem liveCount_lt {F : Facts} {dead more : List String} (hmore : depsStep F dead = more) (hne : more ≠ []) :
+theorem liveCount_lt {F : FactList} {dead more : List String} (hmore : depsStep F dead = more) (hne : more ≠ []) :
     liveCount F (dead ++ more) < liveCount F dead := by
   simp only [liveCount]
   apply filter_length_lt
@@ -100,7 +103,7 @@ theorem liveCount_lt {F : Facts} {dead more : List String} (hmore : depsStep F d
     · simp [hk]
 
 /-- after enough rounds the result is a fixed point of the step -/
-theorem closure_go_fixed (F : Facts) : ∀ (n : Nat) (dead : List String), liveCount F dead ≤ n →
+theorem closure_go_fixed (F : FactList) : ∀ (n : Nat) (dead : List String), liveCount F dead ≤ n →
     depsStep F (closure.go F n dead) = [] := by
   intro n
   induction n with
@@ -127,16 +130,16 @@ theorem closure_go_fixed (F : Facts) : ∀ (n : Nat) (dead : List String), liveC
       have := liveCount_lt (F := F) (dead := dead) rfl (by simpa using hemp)
       omega
 
-theorem closure_fixed (F : Facts) (roots : List String) : depsStep F (closure F roots) = [] := by
+theorem closure_fixed (F : FactList) (roots : List String) : depsStep F (closure F roots) = [] := by
   apply closure_go_fixed
   simp only [liveCount]
   exact List.length_filter_le _ _
 
-theorem closure_roots (F : Facts) (roots : List String) : ∀ r, r ∈ roots → r ∈ closure F roots :=
+theorem closure_roots (F : FactList) (roots : List String) : ∀ r, r ∈ roots → r ∈ closure F roots :=
   closure_go_extends F _ roots
 
 /-- closedness -/
-theorem closure_closed (F : Facts) (roots : List String) {k d : String} {fact : Obj}
+theorem closure_closed (F : FactList) (roots : List String) {k d : String} {fact : Obj}
     (hm : (k, fact) ∈ F) (hd : d ∈ closure F roots) (hdep : depOn fact d = true) : k ∈ closure F roots := by
   apply Classical.byContradiction
   intro hk
@@ -144,11 +147,11 @@ theorem closure_closed (F : Facts) (roots : List String) {k d : String} {fact : 
   rw [closure_fixed] at this
   simp at this
 
-theorem closure_least (F : Facts) (roots : List String) (X : String → Prop) (hroots : ∀ r, r ∈ roots → X r)
+theorem closure_least (F : FactList) (roots : List String) (X : String → Prop) (hroots : ∀ r, r ∈ roots → X r)
     (hstep : ∀ k fact d, (k, fact) ∈ F → X d → depOn fact d = true → X k) : ∀ k, k ∈ closure F roots → X k :=
   closure_go_least F X hstep _ roots hroots
 
-theorem closure_of_reach (F : Facts) {root k : String} (h : Reach F root k) : k ∈ closure F [root] := by
+theorem closure_of_reach (F : FactList) {root k : String} (h : DepReach F root k) : k ∈ closure F [root] := by
   induction h with
   | base => exact closure_roots F [root] root (by simp)
   | step _ hm hdep ih => exact closure_closed F [root] hm ih hdep
